@@ -190,6 +190,138 @@ theorem gen_forread_eq_ref : Csvq.Gen.fxNewHandlerForRead = Csvq.Ref.fxNewHandle
 theorem gen_forupdate_eq_ref : Csvq.Gen.fxNewHandlerForUpdate = Csvq.Ref.fxNewHandlerForUpdate := by decide
 theorem gen_forcreate_eq_ref : Csvq.Gen.fxNewHandlerForCreate = Csvq.Ref.fxNewHandlerForCreate := by decide
 
+/-! ## "every committed change survives": read-modify-write under mutual exclusion
+
+  A writer's critical section (from the moment it holds the table until its commit has been published —
+  `wHold`, which by `gen_commit_publishes_before_release` includes the rename) reads the table and publishes
+  a value computed from what it read.  `mutex_inv` says two writers are never inside at once; what follows
+  from that alone is stated here for an arbitrary update function and any interleaving of any number of
+  writers (the concrete counterpart is the `lost_update` law of the schedule replay). -/
+
+namespace Rmw
+
+/-- events of writers: entering the critical section (reads the table), committing (publishes f(read)),
+    giving up (rollback / timeout: publishes nothing) -/
+inductive Ev | enter (p : Pid) | commit (p : Pid) | abort (p : Pid)
+
+structure St (α : Type) where
+  data : α
+  inside : Option (Pid × α)       -- the writer inside the critical section and what it has read
+
+def init {α} (a : α) : St α := { data := a, inside := none }
+
+/-- one event under the lock discipline: `enter` succeeds only when nobody is inside (that is what
+    `mutex_inv` guarantees of the protocol), `commit` / `abort` act only for the writer that is inside;
+    every other event cannot happen and changes nothing -/
+def step {α} (f : α → α) (s : St α) : Ev → St α
+  | .enter p => match s.inside with
+      | none => { s with inside := some (p, s.data) }
+      | some _ => s
+  | .commit p => match s.inside with
+      | some (q, v) => if q = p then { data := f v, inside := none } else s
+      | none => s
+  | .abort p => match s.inside with
+      | some (q, _) => if q = p then { s with inside := none } else s
+      | none => s
+
+/-- does the event take effect as a commit in state s? -/
+def isCommit {α} (s : St α) : Ev → Bool
+  | .commit p => match s.inside with | some (q, _) => q == p | none => false
+  | _ => false
+
+/-- number of commits that took effect -/
+def commits {α} (f : α → α) (s : St α) : List Ev → Nat
+  | [] => 0
+  | e :: es => commits f (step f s e) es + (if isCommit s e then 1 else 0)
+
+def run {α} (f : α → α) (s : St α) (es : List Ev) : St α := es.foldl (step f) s
+
+/-- n-fold application, first application first -/
+def iter {α} (f : α → α) : Nat → α → α
+  | 0, a => a
+  | n + 1, a => iter f n (f a)
+
+/-- the writer inside has read the current table (nobody else could publish since it entered) -/
+def Inv {α} (s : St α) : Prop := ∀ p v, s.inside = some (p, v) → v = s.data
+
+theorem inv_step {α} (f : α → α) (s : St α) (e : Ev) (h : Inv s) : Inv (step f s e) := by
+  cases e with
+  | enter p =>
+    simp only [step]
+    cases hi : s.inside with
+    | none => intro q v hv; simp at hv; exact hv.2.symm
+    | some x => simpa [hi] using h
+  | commit p =>
+    simp only [step]
+    cases hi : s.inside with
+    | none => simpa [hi] using h
+    | some x =>
+      obtain ⟨q, v⟩ := x
+      by_cases e : q = p
+      · simp only [e, if_true]; intro a w hw; simp at hw
+      · simp only [e, if_false]; exact h
+  | abort p =>
+    simp only [step]
+    cases hi : s.inside with
+    | none => simpa [hi] using h
+    | some x =>
+      obtain ⟨q, v⟩ := x
+      by_cases e : q = p
+      · simp only [e, if_true]; intro a w hw; simp at hw
+      · simp only [e, if_false]; exact h
+
+/-- **No lost update.**  Whatever the interleaving of enter / commit / abort events of any number of writers,
+    the table ends as the update function applied once per commit that took effect: no committed change is
+    overwritten by a writer that read the table earlier. -/
+theorem no_lost_update {α} (f : α → α) :
+    ∀ (es : List Ev) (s : St α), Inv s → (run f s es).data = iter f (commits f s es) s.data
+  | [], s, _ => rfl
+  | e :: es, s, h => by
+    have ih := no_lost_update f es (step f s e) (inv_step f s e h)
+    simp only [run, List.foldl] at ih ⊢
+    rw [ih]
+    simp only [commits]
+    cases e with
+    | enter p =>
+      simp only [isCommit, Bool.false_eq_true, if_false, Nat.add_zero]
+      congr 1
+      simp only [step]; cases s.inside <;> rfl
+    | abort p =>
+      simp only [isCommit, Bool.false_eq_true, if_false, Nat.add_zero]
+      congr 1
+      simp only [step]
+      cases hi : s.inside with
+      | none => rfl
+      | some x => obtain ⟨q, v⟩ := x; by_cases e : q = p <;> simp [e]
+    | commit p =>
+      cases hi : s.inside with
+      | none => simp [isCommit, step, hi]
+      | some x =>
+        obtain ⟨q, v⟩ := x
+        have hv : v = s.data := h q v hi
+        by_cases e : q = p
+        · simp only [isCommit, hi, e, beq_self_eq_true, if_true, step, iter]
+          rw [hv]
+        · have : (q == p) = false := by simpa using e
+          simp [isCommit, hi, step, e, this]
+
+theorem inv_init {α} (a : α) : Inv (init a) := by intro p v h; simp [init] at h
+
+theorem iter_succ_nat (n c : Nat) : iter (· + 1) n c = c + n := by
+  induction n generalizing c with
+  | zero => rfl
+  | succ k ih => simp only [iter]; rw [ih]; omega
+
+/-- counters: the counter ends at start + number of effective commits -/
+theorem counter_counts_commits (es : List Ev) (c : Nat) :
+    (run (· + 1) (init c) es).data = c + commits (· + 1) (init c) es := by
+  rw [no_lost_update (· + 1) es (init c) (inv_init c), iter_succ_nat]; rfl
+
+example : (run (· + 1) (init 0) [.enter 0, .enter 1, .commit 0, .enter 1, .commit 1, .commit 1]).data = 2 := by
+  simp [run, step, init]
+
+end Rmw
+
 /-- the executable explorer used for the failing-schedule search agrees with the proved protocol
     on the reference flags for small instances (sanity; the proof above is the unbounded claim) -/
 example : (xsteps refFlags { pcs := [.wRecheck, .rRead], lockOwner := some 0, rlocks := [false, true] } 0)
